@@ -200,8 +200,14 @@ def etag_sensitivity(ctx):
             if k < 0.6:
                 uid = name[:2]
                 srv.put("/u/c/" + name, impl.event(uid, summary="s%d" % rng.randrange(4), extra="DTSTAMP:20130101T000000Z\r\n"), login="u:")
-            elif k < 0.8:
+            elif k < 0.7:
                 srv.request("DELETE", "/u/c/" + name, login="u:")
+            elif k < 0.85:
+                # rename inside the collection: same stored texts under another href must give another collection ETag
+                src = rng.choice([name, "m" + name[1:]])
+                dst = ("m" if src[0] == "n" else "n") + src[1:]
+                srv.request("MOVE", "/u/c/" + src, login="u:", HTTP_HOST="127.0.0.1", HTTP_DESTINATION="http://127.0.0.1/u/c/" + dst,
+                            HTTP_OVERWRITE="F")
             else:
                 body = ('<?xml version="1.0"?><D:propertyupdate xmlns:D="DAV:"><D:set><D:prop><D:displayname>d%d</D:displayname>'
                         '</D:prop></D:set></D:propertyupdate>' % rng.randrange(3))
